@@ -1,5 +1,7 @@
 import QV.C14.Lemmas
 import QV.C14.Complex
+import QV.C14.Lift
+import QV.C14.Term
 /-
 C14 — Standard gate unitaries match the Quil specification.
 
@@ -27,5 +29,100 @@ example (θ : ℂ) : (baseMatrix "RZ" [Param.num θ]).toOption
   have := C14_table_eq_spec (K := ℂ) "RZ" [θ]
   simp only [List.map_cons, List.map_nil] at this
   rw [this]; rfl
+
+/-! ### (b) Lifting -/
+
+/-- The `Bool` placement test used by the driver means what it says. -/
+theorem C14_validPlacement_iff (qs : List Nat) (n : Nat) :
+    validPlacement qs n = true ↔ qs ≠ [] ∧ (∀ q ∈ qs, q < n) ∧ qs.Nodup := by
+  have hnd : ∀ l : List Nat, nodupB l = true ↔ l.Nodup := by
+    intro l
+    induction l with
+    | nil => simp [nodupB]
+    | cons q qs ih => simp [nodupB, ih, List.nodup_cons]
+  unfold validPlacement
+  simp [hnd, List.isEmpty_iff]
+  tauto
+
+/-- The specification of lifting, read entry-wise as a `Prop`: entry `(r, c)` of `liftSpec U qs n` is
+`U[gate bits of r][gate bits of c]` when `r` and `c` agree on every qubit `< n` that is not listed, else `0`
+(the `Bool` test `agreeOutside` evaluated by the driver is exactly that condition). -/
+theorem C14_liftSpec_entry (U : Mat K) (qs : List Nat) (n r c : Nat) (hr : r < 2 ^ n) (hc : c < 2 ^ n)
+    [Decidable (∀ p, p < n → p ∉ qs → r.testBit p = c.testBit p)] :
+    (liftSpec U qs n).get r c =
+      if (∀ p, p < n → p ∉ qs → r.testBit p = c.testBit p) then U.get (gateIndex qs r) (gateIndex qs c) else 0 := by
+  unfold liftSpec
+  rw [get_build hr hc]
+  have : agreeOutside qs n r c = true ↔ ∀ p, p < n → p ∉ qs → r.testBit p = c.testBit p := by
+    unfold agreeOutside
+    simp only [List.all_eq_true, List.mem_range, Bool.or_eq_true, List.contains_eq_mem, decide_eq_true_eq,
+      beq_iff_eq]
+    constructor
+    · intro h p hp hq; rcases h p hp with h | h
+      · exact absurd h hq
+      · exact h
+    · intro h p hp
+      by_cases hq : p ∈ qs
+      · exact Or.inl hq
+      · exact Or.inr (h p hp hq)
+  by_cases h : agreeOutside qs n r c = true
+  · rw [if_pos h, if_pos (this.mp h)]
+  · rw [if_neg h, if_neg (fun hh => h (this.mpr hh))]
+
+/-- **(b) Lifting, all `n`, all matrices, all qubit lists — partial correctness.**  Whenever
+`lifted_gate_matrix` (swap network with any fuel, then `Pᴴ·(I⊗M⊗I)·P`) returns on a `2^k × 2^k` matrix `M` and
+`k` listed qubits, the result is `liftSpec M qs n`.  Unbounded in `n`, `k`, `M`.  What is *not* proved for
+`n > 5` is that the sweep loop terminates (hence `_partial`); see `C14_lift_eq_spec` for `n ≤ 5`. -/
+theorem C14_lift_eq_spec_alln_partial {M : Mat K} {qs : List Nat} {n fuel : Nat} {R : Mat K}
+    (hMr : M.r = 2 ^ qs.length) (hMc : M.c = 2 ^ qs.length)
+    (h : liftedGateMatrix M qs n fuel = .ok R) : R = liftSpec M qs n :=
+  liftedGateMatrix_eq_liftSpec hMr hMc h
+
+/-- **(b) Lifting on the property's quantifier**: for every `n ≤ 5`, every valid placement `qs` (distinct
+qubits `< n`, any number of them) and EVERY `2^|qs| × 2^|qs|` matrix `M` (not only table entries),
+`lifted_gate_matrix` returns — no panic, no endless loop — and returns `liftSpec M qs n`.
+(Termination: exhaustive kernel evaluation of the matrix-free shadow over all 409 placements, a finite proof
+for a finite quantifier; correctness: the unbounded theorem above.) -/
+theorem C14_lift_eq_spec {M : Mat K} {qs : List Nat} {n : Nat} (hn : n ≤ 5)
+    (hv : validPlacement qs n = true) (hMr : M.r = 2 ^ qs.length) (hMc : M.c = 2 ^ qs.length) :
+    liftedGateMatrix M qs n defaultFuel = .ok (liftSpec M qs n) := by
+  obtain ⟨R, hR⟩ := liftedGateMatrix_of_shadow (K := K) hMr (shadow_ok_of_valid hn hv)
+  rw [hR, liftedGateMatrix_eq_liftSpec hMr hMc hR]
+
+/-- **C14, assembled.**  For every standard gate `name` with parameters `θs` (any values) that the Quil
+specification defines (`specMatrix name θs = some U`), applied to the right number of distinct fixed qubits
+`qs`, all `< n ≤ 5`: `Gate::to_unitary` returns, without error or panic, the specification's matrix lifted
+with qubit 0 as the least significant bit and the first listed qubit as the gate's most significant one. -/
+theorem C14_toUnitary_eq_spec (name : String) (θs : List K) (U : Mat K) (qs : List Nat) (n : Nat)
+    (hspec : specMatrix name θs = some U) (harity : U.r = 2 ^ qs.length)
+    (hn : n ≤ 5) (hv : validPlacement qs n = true) :
+    toUnitary0 name (θs.map Param.num) (qs.map Qubit.fixed) n = .ok (.ok (liftSpec U qs n)) := by
+  have hfix : ∀ l : List Nat, fixedQubits (l.map Qubit.fixed) = .ok l := by
+    intro l
+    induction l with
+    | nil => rfl
+    | cons q l ih => simp only [List.map_cons, fixedQubits, ih]; rfl
+  have hbase : baseMatrix name (θs.map Param.num) = .ok U := by
+    have := C14_table_eq_spec name θs
+    rw [hspec] at this
+    cases hb : baseMatrix name (θs.map Param.num) with
+    | ok m => rw [hb] at this; simp only [Except.toOption] at this; injection this with this; rw [this]
+    | error e => rw [hb] at this; simp [Except.toOption] at this
+  obtain ⟨_, hsq⟩ := specMatrix_square hspec
+  unfold toUnitary0
+  rw [hfix, hbase]
+  simp only
+  rw [C14_lift_eq_spec hn hv harity (by rw [← hsq]; exact harity)]
+  rfl
+
+/-- non-vacuity: `CNOT 2 0` on 3 qubits over `ℂ` -/
+example : toUnitary0 (K := ℂ) "CNOT" [] [Qubit.fixed 2, Qubit.fixed 0] 3
+    = .ok (.ok (liftSpec (permGate 2 fun c => 2 * bit c 1 + (bit c 0 + bit c 1) % 2) [2, 0] 3)) :=
+  C14_toUnitary_eq_spec (K := ℂ) "CNOT" [] _ [2, 0] 3 rfl rfl (by norm_num) (by decide)
+
+/-- non-vacuity: `RZ(θ) 1` on 2 qubits over `ℂ`, any θ -/
+example (θ : ℂ) : ∃ U, specMatrix "RZ" [θ] = some U ∧
+    toUnitary0 "RZ" [Param.num θ] [Qubit.fixed 1] 2 = .ok (.ok (liftSpec U [1] 2)) :=
+  ⟨_, rfl, C14_toUnitary_eq_spec (K := ℂ) "RZ" [θ] _ [1] 2 rfl rfl (by norm_num) (by decide)⟩
 
 end QV.C14
